@@ -554,9 +554,24 @@ func runC17(c *Ctx) {
 		}
 		c.Model("legmig", "legmig "+strings.Join(form, ","), exp, map[string]any{"legacy": legacy, "migrated": migrated})
 	}
+	// date arithmetic in several steps first: the second step sees the migrated text of the first
+	dec := func(t string) *lx { return &lx{kind: "dec", text: t} }
+	call := func(f string, kids ...*lx) *lx { return &lx{kind: "call", text: f, kids: kids} }
+	bin := func(op string, l, r2 *lx) *lx { return &lx{kind: "bin", text: op, kids: []*lx{l, r2}} }
+	explicit := []*lx{
+		bin("+", bin("+", call("now"), dec("5")), dec("3")), bin("+", bin("-", call("now"), dec("2")), dec("10")), bin("-", bin("+", call("now"), dec("1")), dec("1")),
+		bin("+", bin("+", call("now"), dec("1")), call("time", dec("2"), dec("30"), dec("0"))), bin("+", bin("+", call("today"), dec("5")), dec("3")),
+		bin("+", bin("+", call("date", dec("2020"), dec("3"), dec("15")), dec("1")), dec("2")), bin("+", call("edate", call("now"), dec("1")), dec("2")),
+		bin("-", bin("-", call("today"), dec("1")), dec("1")), call("proper", bin("+", bin("+", call("now"), dec("5")), dec("3"))),
+	}
 	n := c.N(5000, 250000)
-	for i := 0; i < n; i++ {
-		e := g.expr(r.Range(1, 3), Pick(r, []byte{'n', 't', '*'}))
+	for i := 0; i < n+len(explicit); i++ {
+		var e *lx
+		if i < len(explicit) {
+			e = explicit[i]
+		} else {
+			e = g.expr(r.Range(1, 3), Pick(r, []byte{'n', 't', '*'}))
+		}
 		legacy := "@(" + e.legacy() + ")"
 		desc := map[string]any{"legacy": legacy}
 		var migrated string
